@@ -354,3 +354,85 @@ Example ex_unbalanced :
   parse true prec_OpExpr ([op tt_OpenParenToken; ida] ++ [op tt_CloseParenToken]) = Ok (EGroup va, []) /\
   parse_all ([op tt_OpenParenToken; ida] ++ op tt_CloseParenToken :: [op tt_CloseParenToken]) = Fail.
 Proof. split; vm_compute; reflexivity. Qed.
+
+(* ====================================================================================================================== *)
+(* the entry point that is diffed against js.Parse: a whole program consisting of one expression statement                *)
+
+Lemma spells_starts q inf ts t : spells q inf ts t -> exists k r, ts = k :: r /\ starts_expr k.
+Proof. intros H. destruct (spells_first _ _ _ _ H) as [k [r [E S]]]. eauto. Qed.
+
+Lemma starts_not_stmt k : starts_expr k -> stmt_keyword (ty k) = false /\ (ty k =? tt_SemicolonToken) = false.
+Proof.
+  unfold starts_expr. intros H. pose proof (pview_bare k) as Hb.
+  assert (S : forallb (fun t => match pview (bare t) with PLeaf _ | PUnary _ _ _ _ | PGroup _ _ => false | _ => true end)
+                (tt_SemicolonToken :: [tt_OpenBraceToken; tt_ConstToken; tt_VarToken; tt_IfToken; tt_ContinueToken; tt_BreakToken;
+                 tt_WithToken; tt_DoToken; tt_WhileToken; tt_ForToken; tt_SwitchToken; tt_FunctionToken; tt_AsyncToken;
+                 tt_ClassToken; tt_ThrowToken; tt_TryToken; tt_DebuggerToken; tt_ImportToken; tt_ExportToken;
+                 tt_ReturnToken; tt_YieldToken; tt_AwaitToken]) = true) by (vm_compute; reflexivity).
+  rewrite forallb_forall in S.
+  assert (G : forall t, In t (tt_SemicolonToken :: [tt_OpenBraceToken; tt_ConstToken; tt_VarToken; tt_IfToken; tt_ContinueToken; tt_BreakToken;
+                 tt_WithToken; tt_DoToken; tt_WhileToken; tt_ForToken; tt_SwitchToken; tt_FunctionToken; tt_AsyncToken;
+                 tt_ClassToken; tt_ThrowToken; tt_TryToken; tt_DebuggerToken; tt_ImportToken; tt_ExportToken;
+                 tt_ReturnToken; tt_YieldToken; tt_AwaitToken]) -> ty k <> t).
+  { intros t Hin E. specialize (S _ Hin). rewrite <- E in S.
+    (* the class of pview depends on the token type only *)
+    unfold pview, bare in *. cbn [ty data] in *.
+    destruct ((ty k =? tt_DivToken) || (ty k =? tt_DivEqToken)); [contradiction|].
+    destruct (is_identifier (ty k) && negb (ty k =? tt_AsyncToken)); [discriminate|].
+    destruct (is_numeric (ty k)); [discriminate|].
+    destruct (prefix_arm (ty k)) as [[sh ps]|]; [|contradiction].
+    destruct (sh =? 2); [discriminate|].
+    destruct (sh =? 1); [destruct ps as [|a [|b [|c [|d [|g ps]]]]]; try contradiction; discriminate|].
+    destruct (sh =? 3); [destruct ps as [|a [|b [|c ps]]]; try contradiction; discriminate|contradiction]. }
+  split.
+  - unfold stmt_keyword. apply not_true_is_false. intros E. apply existsb_exists in E. destruct E as [t [Hin Ht]].
+    apply Z.eqb_eq in Ht. apply (G t); [right; exact Hin|exact Ht].
+  - apply Z.eqb_neq. apply G. left. reflexivity.
+Qed.
+
+Lemma suffix_has_fuel inf left prec pl ts : parse_suffix (fuel_for ts) inf left prec pl ts <> NoFuel.
+Proof. apply (proj1 (proj2 (suff_all _))). unfold fuel_for. lia. Qed.
+
+(* Every grammatical expression of the fragment (without a `++x ** y` node, not starting with `let`), given as a whole
+   program, is parsed to the single expression statement with exactly that tree. *)
+Lemma program_of_expression_proof :
+  forall ts t, derives true Expression ts t -> no_pue t = true ->
+    (forall k r, ts = k :: r -> ty k <> tt_LetToken) ->
+    parse_program ts = Ok [SExpr t].
+Proof.
+  intros ts t d Hn Hlet.
+  pose proof (pratt_complete_partial_proof _ _ _ d Hn) as Hp.
+  destruct (derives_spells _ _ _ _ d Hn) as [Hs _].
+  destruct (spells_starts _ _ _ _ Hs) as [k [rest [E Hst]]]. subst ts.
+  destruct (starts_not_stmt _ Hst) as [Hkw Hsemi].
+  specialize (Hlet k rest eq_refl). apply Z.eqb_neq in Hlet.
+  unfold parse_program. cbn [parse_module length]. cbn [parse_stmt]. rewrite Hsemi, Hkw, Hlet.
+  destruct (is_identifier (ty k)) eqn:Ei.
+  - (* the statement starts with an identifier: label test, then parseIdentifierExpression *)
+    assert (Hpv : pview k = PLeaf (EVar (data k))).
+    { unfold starts_expr in Hst. unfold pview in *.
+      destruct ((ty k =? tt_DivToken) || (ty k =? tt_DivEqToken)); [contradiction|].
+      rewrite Ei in *. cbn [andb] in *.
+      destruct (negb (ty k =? tt_AsyncToken)) eqn:Ea; [reflexivity|].
+      apply negb_false_iff in Ea. apply Z.eqb_eq in Ea. rewrite Ea in Hkw. vm_compute in Hkw. discriminate. }
+    unfold parse in Hp. assert (Hf : fuel_for (k :: rest) = S (S (fuel_for rest))) by (unfold fuel_for; cbn [length]; lia).
+    rewrite Hf, parse_expr_step, Hpv in Hp.
+    destruct rest as [|c r].
+    + cbn in Hp. inversion Hp. reflexivity.
+    + assert (Hs2 : parse_suffix (fuel_for (c :: r)) true (EVar (data k)) prec_OpExpr primary (c :: r) = Ok (t, [])).
+      { destruct (mono_suffix (fuel_for (c :: r)) (S (fuel_for (c :: r))) true (EVar (data k)) prec_OpExpr primary (c :: r) ltac:(lia)) as [E|E].
+        - exfalso. exact (suffix_has_fuel _ _ _ _ _ E).
+        - rewrite E. exact Hp. }
+      destruct (ty c =? tt_ColonToken) eqn:Ec.
+      * (* a colon cannot follow: the suffix loop would stop in front of it *)
+        exfalso. apply Z.eqb_eq in Ec. unfold fuel_for in Hs2. cbn [length] in Hs2.
+        replace (2 * S (length r) + 2)%nat with (S (2 * S (length r) + 1))%nat in Hs2 by lia.
+        rewrite parse_suffix_step, Ec in Hs2. rewrite sview_close in Hs2 by (cbn; auto). discriminate.
+      * rewrite Hs2. cbn [rbind stmt_end_ok skip_semi]. reflexivity.
+  - unfold parse in Hp. rewrite Hp. cbn [rbind stmt_end_ok skip_semi]. reflexivity.
+Qed.
+
+Example program_of_expression_example :
+  parse_program ex_tokens = Ok [SExpr ex_tree] /\ show_stmt (SExpr ex_tree) =
+  [83; 116; 109; 116; 40; 97; 43; 40; 98; 42; 40; 40; 99; 44; 97; 41; 41; 41; 41].
+Proof. split; vm_compute; reflexivity. Qed.
